@@ -349,6 +349,32 @@ class Histories(SubCheck):
         return None
 
 
+def refused_check(svg):
+    """a transform that cannot be applied yet (unit / percentage translations before render()): reify() is refused;
+    rendering and reifying afterwards must give what it gives without the refused attempt"""
+    from props import failsafe
+    d = "M1,1 L3,-2 Q7,5 -4,1.5 C11,-6 0.25,13 -8.5,2.75 A5,8 30 0 1 2,2 z M9,9 L1,1"
+
+    def after(o):
+        o.render(ppi=96, width=200, height=100)
+        o.reify()
+        return [repr(s) for s in (o.segments() if hasattr(o, "segments") else [o])] + [repr(o.transform)]
+    sc = []
+    for tname, t in (("cm", "translate(1cm,5mm)"), ("pct", "translate(10%,5%)"), ("rot-in", "rotate(30) translate(0.5in,0)")):
+        sc.append(dict(name="path %s reify" % tname, fresh=(lambda t=t: svg.Path(d, transform=t)), attempt=lambda o: o.reify(),
+                       follow={"render+reify": after}))
+        sc.append(dict(name="path %s abs" % tname, fresh=(lambda t=t: svg.Path(d, transform=t)), attempt=lambda o: abs(o),
+                       follow={"render+reify": after}))
+        sc.append(dict(name="rect %s reify" % tname, fresh=(lambda t=t: svg.Rect(2, 3, 7, 5, 1.5, 1, transform=t)),
+                       attempt=lambda o: o.reify(), follow={"render+reify": after}))
+        sc.append(dict(name="polyline %s reify" % tname, fresh=(lambda t=t: svg.Polyline((1, 2), (6, -4), (8, 3), transform=t)),
+                       attempt=lambda o: o.reify(), follow={"render+reify": after}))
+        sc.append(dict(name="circle %s bbox" % tname, fresh=(lambda t=t: svg.Circle(4, -3, 2.5, transform=t, stroke="red", stroke_width=2)),
+                       attempt=lambda o: o.bbox(), follow={"render+reify": after, "render+bbox-stroke": lambda o: (
+                           o.render(ppi=96, width=200, height=100), o.bbox(with_stroke=True))[-1]}))
+    return failsafe.Refused(svg, sc)
+
+
 def build(tier, seed, svg):
     segnames = list(seg_alphabet(svg, 1.0))
     pathnames = list(path_alphabet(svg))
@@ -363,9 +389,9 @@ def build(tier, seed, svg):
         return [Histories(svg, "segments", seg_objs, ev_seg3, 3, tier),
                 Histories(svg, "shapes", [(n, 1.0) for n in pathnames],
                           ["mul:" + m for m in mats] + ["imul:" + m for m in ("R30", "MX", "S23", "KX30", "GN", "SWAP")]
-                          + ["reify", "abs", "topath", "matmul:S23", "imatmul:GN"], 3, tier)]
+                          + ["reify", "abs", "topath", "matmul:S23", "imatmul:GN"], 3, tier), refused_check(svg)]
     return [Histories(svg, "segments", seg_objs, ev_seg, depth, tier),
-            Histories(svg, "shapes", [(n, 1.0) for n in pathnames], ev_shape, depth, tier)]
+            Histories(svg, "shapes", [(n, 1.0) for n in pathnames], ev_shape, depth, tier), refused_check(svg)]
 
 
 def m_round_direction(d):
